@@ -149,8 +149,12 @@ struct Hist {
       k = "service.component.subcomponent.metric." + mid + "." + k + std::string(r.below(20), 'z');
     }
     if (r.below(10) == 0) k = std::string(1, (char)r.range(0x21, 0x7e)) + k;
+    if (once_present.size() < 64) once_present.push_back(k); else once_present[r.below(64)] = k;
     return k;
   }
+  // keys handed out earlier in this history: wherever they are no longer members (RemoveMember, EraseMember, Clear,
+  // overwritten containers) a lookup has to miss them, whatever a lookup map remembers
+  std::vector<std::string> once_present;
 
   NodeT make_node(const JVal& v) {
     NodeT n;
@@ -222,7 +226,8 @@ struct Hist {
     const NodeT* cn = n;
     for (int t = 0; t < 3; t++) {
       c_lookup.add();
-      std::string key = (!m->o.empty() && t < 2) ? m->o[r.below(m->o.size())].first : "absent" + std::to_string(r.below(100));
+      std::string key = (!m->o.empty() && t < 2) ? m->o[r.below(m->o.size())].first
+                        : (!once_present.empty() && r.coin()) ? once_present[r.below(once_present.size())] : "absent" + std::to_string(r.below(100));
       long want = -1;
       for (size_t i = 0; i < m->o.size(); i++)
         if (m->o[i].first == key) { want = (long)i; break; }
@@ -439,9 +444,14 @@ struct Hist {
         if (m->k != JVal::Arr && m->k != JVal::Obj) return "";
         log("Clear(" + path_desc(p) + ")");
         NodeT* n = node_at<NodeT>(doc, p);
+        std::vector<std::string> old_keys;
+        for (auto& om : m->o) old_keys.push_back(om.first);
         n->Clear();
         m->a.clear();
         m->o.clear();
+        for (auto& ok : old_keys)
+          if (n->HasMember(StringView(ok.data(), ok.size())) || n->FindMember(StringView(ok.data(), ok.size())) != n->MemberEnd() || !static_cast<const NodeT&>(*n)[StringView(ok.data(), ok.size())].IsNull())
+            vf::violation("lookup:member-found-after-Clear", std::string(cfg) + ": key " + vf::printable(ok, 40) + " trace: " + tail());
         maps.erase(path_desc(p));
         invalidate_maps_below(p);
         if (r.coin()) {
